@@ -10,25 +10,32 @@
         "valid"      Serialize(doc) for the document the response side was given
         "truncated"  a proper prefix of a serialisation that is not itself decodable   (json only)
         "badenc"     bytes that are not UTF-8 / not ASCII for forms
+   The document is any JSON value, in particular the falsy ones (null, false, 0, "", [], {}):
+   a cached value is recognised by the cache being SET, never by the value being truthy or
+   non-null (CachedIsNotTruthiness).  `framing` says how the body length reaches the application:
+   "length" (a Content-Length header) or "chunked" (no Content-Length, the body simply ends:
+   Transfer-Encoding: chunked on the wire, ASGI more_body events); what is parsed never depends
+   on it (FramingIsIrrelevant) - the body is what the stream delivers, not what a header says.
    One action per public access: get_media() / get_media(default_when_empty=X) / the media property.
    Implementation-shaped rules are named: StreamIsConsumedByParse, ErrorsAreCached (switch
    CacheError), DefaultIsNotCached (switch CacheDefault), UnsupportedIsNotCached.               *)
 EXTENDS Integers, Sequences, TLC
 
 CONSTANTS Stacks,        \* {"wsgi", "asgi"}: the same model for both (the harness drives both)
+          Framings,      \* [Stacks -> SUBSET {"length", "chunked"}]: framings a stack can express
           CTypes,        \* content types
           HandlerOf,     \* [CTypes -> {"json", "form", "none"}]
           BodyKinds,
           CacheError,    \* TRUE = design; FALSE = wrong design "a failed parse is not remembered"
           CacheDefault   \* FALSE = design; TRUE = wrong design "the caller's default is remembered as the media"
 
-VARIABLES stack, ctype, body,
+VARIABLES stack, framing, ctype, body,
           cache,      \* [k: "unset" | "val" | "err", ek: error kind, v: value tag]
           consumed,   \* the body stream has been read to its end
           parses,     \* number of deserialisation attempts so far
           last        \* the last access and what it gave
 
-vars == <<stack, ctype, body, cache, consumed, parses, last>>
+vars == <<stack, framing, ctype, body, cache, consumed, parses, last>>
 
 Handler == HandlerOf[ctype]
 
@@ -55,7 +62,7 @@ Rec(op, d, out, ek, v, same, touched) ==
 
 TypeOK == /\ cache.k \in {"unset", "val", "err"} /\ parses \in 0..100 /\ consumed \in BOOLEAN
 
-Init == /\ stack \in Stacks /\ ctype \in CTypes /\ body \in BodyKinds
+Init == /\ stack \in Stacks /\ framing \in Framings[stack] /\ ctype \in CTypes /\ body \in BodyKinds
         /\ (HandlerOf[ctype] = "form" => body # "truncated")
         /\ cache = Unset /\ consumed = FALSE /\ parses = 0
         /\ last = Rec("init", FALSE, "none", "none", "none", FALSE, FALSE)
@@ -64,15 +71,15 @@ Init == /\ stack \in Stacks /\ ctype \in CTypes /\ body \in BodyKinds
 Access(op, d) ==
     IF cache.k = "val"
     THEN /\ last' = Rec(op, d, "val", "none", cache.v, TRUE, FALSE)
-         /\ UNCHANGED <<stack, ctype, body, cache, consumed, parses>>
+         /\ UNCHANGED <<stack, framing, ctype, body, cache, consumed, parses>>
     ELSE IF cache.k = "err"
     THEN /\ last' = IF d /\ cache.ek = "notfound" THEN Rec(op, d, "dflt", "none", "dflt", FALSE, FALSE)
                     ELSE Rec(op, d, "err", cache.ek, "none", TRUE, FALSE)
-         /\ UNCHANGED <<stack, ctype, body, cache, consumed, parses>>
+         /\ UNCHANGED <<stack, framing, ctype, body, cache, consumed, parses>>
     ELSE IF Handler = "none"
     THEN (* UnsupportedIsNotCached: the 415 is raised before anything is read or remembered *)
          /\ last' = Rec(op, d, "err", "unsupported", "none", FALSE, FALSE)
-         /\ UNCHANGED <<stack, ctype, body, cache, consumed, parses>>
+         /\ UNCHANGED <<stack, framing, ctype, body, cache, consumed, parses>>
     ELSE LET seen == IF consumed THEN "empty" ELSE body          \* StreamIsConsumedByParse
              r == Deserialize(Handler, seen)
              dflt == d /\ r.k = "err" /\ r.ek = "notfound"
@@ -83,7 +90,7 @@ Access(op, d) ==
              /\ last' = IF r.k = "val" THEN Rec(op, d, "val", "none", r.v, TRUE, ~consumed)
                         ELSE IF dflt THEN Rec(op, d, "dflt", "none", "dflt", FALSE, ~consumed)   \* DefaultIsNotCached
                         ELSE Rec(op, d, "err", r.ek, "none", TRUE, ~consumed)
-             /\ UNCHANGED <<stack, ctype, body>>
+             /\ UNCHANGED <<stack, framing, ctype, body>>
 
 GetMedia        == Access("get", FALSE)
 GetMediaDefault == Access("get", TRUE)
